@@ -9,6 +9,15 @@
 //! (crecv / wrecv / hang / end), and `tick` events from the monotonic clock (unit = worker_timeout / T).
 //! The runs are written one after the other, separated by `reset` events; Trace_MasterHub.tla decides.
 //!
+//! Load-state requests name state files of random SHAPES (MasterHub.tla `Files`: well-formed, cut off
+//! after k records, damaged from the first record, empty, missing, with records the main state refuses);
+//! the `send` event carries the shape. Clients keep reading after a final answer (a second final answer
+//! has no explanation in the spec). In half of the runs the hub's loop is PARKED now and then for a few
+//! ms (hubkit::Gate) while workers answer / hang up and clients send: the hub then finds several events
+//! in one poll turn (a busy main process). One run in six is the "deadline beside a task without
+//! deadline" family: a load-state waiting for a silent worker while another client's request waits for
+//! the same silent worker and nothing else happens - that request's deadline must still fire.
+//!
 //! usage: drive_hub --runs N --seed S --threads K --out trace.ndjson [--t 2] [--timeout-s 1] [--slack-ms 3000]
 //! stdout: {"kind":"summary",...}
 
@@ -134,6 +143,59 @@ fn one_run(run_no: usize, seed: u64, cfg: &Cfg) -> (Vec<Value>, Value) {
     let first_send: Vec<u64> = (0..=nclients).map(|_| rng.below(200)).collect();
     let next_gap: Vec<u64> = (0..=nclients).map(|_| rng.below(100)).collect();
     let variant: Vec<u64> = (0..plan.len()).map(|_| rng.below(2)).collect();
+    // state file shapes (only used by the load-state requests)
+    let g = || "good".to_string();
+    let b = || "bad".to_string();
+    let rf = || "refused".to_string();
+    let whole: Vec<String> = (0..cfg.parts).map(|_| g()).collect();
+    let mut cut_full = whole.clone();
+    cut_full.push(b());
+    let shapes: Vec<(Vec<String>, u64)> = vec![
+        (whole.clone(), 40),
+        (vec![g(), b()], 14),                  // a valid record, then damage
+        (cut_full, 8),                         // every record valid, a damaged tail
+        (vec![b(), g()], 6),                   // damaged from the first record
+        (vec![b()], 3),
+        (vec![], 6),                           // empty file
+        (vec!["missing".to_string()], 5),
+        (vec![rf(), g()], 6),                  // a record the main state refuses
+        (vec![rf(), rf()], 4),
+        (vec![g(), rf(), b()], 8),
+    ];
+    let mut files: Vec<Vec<String>> = (0..plan.len()).map(|_| rng.pick(&shapes).clone()).collect();
+    let flavour: Vec<u64> = (0..plan.len()).map(|_| rng.below(4)).collect();
+    let beside = nclients >= 2 && rng.below(6) == 0;
+    // (a park wakes the loop: the quiet loop is the whole point of the `beside` family)
+    let parky = rng.below(2) == 0 && !beside;
+    let mut plan = plan;
+    let mut script = script;
+    let mut first_send = first_send;
+    if beside {
+        // a load-state (no deadline) pending on a silent worker; beside it a request with a deadline pending on
+        // the same silent worker; everybody else answers at once, then nothing moves any more
+        let w = rng.below(nw as u64) as usize;
+        plan[1] = Some("load");
+        plan[2] = None;
+        plan[3] = Some(if rng.below(3) == 0 { "query" } else { "worker" });
+        plan[4] = None;
+        for c in 3..=nclients {
+            plan[2 * c - 1] = Some("workerBad");
+            plan[2 * c] = None;
+        }
+        files[1] = whole.clone();
+        for v in 0..nw {
+            for r in [1usize, 3] {
+                script[v][r] = if v == w { ("silent", 0, 0) } else { ("ok", rng.below(20), 0) };
+            }
+        }
+        first_send[1] = rng.below(30);
+        first_send[2] = 40 + rng.below(200);
+    }
+    let plan = plan;
+    let script = script;
+    let first_send = first_send;
+    let preclosed: Vec<bool> = if beside { vec![false; nw] } else { preclosed };
+    let nparts_of = |r: usize| -> u64 { if plan[r] == Some("load") { accepted_records(&files[r]) } else { 1 } };
 
     let mut events0 = vec![json!({"ev": "reset", "nw": nw, "run": run_no})];
     let hub = match Hub::start(nw, cfg.timeout_s) {
@@ -171,12 +233,14 @@ fn one_run(run_no: usize, seed: u64, cfg: &Cfg) -> (Vec<Value>, Value) {
     }
     // burst: in a third of the runs one worker hangs up at the very moment a client sends, so that the
     // hang-up races with the scatter (the hub may hold unsent data for that worker when it sees the HUP)
-    if rng.below(3) == 0 {
+    if !beside && rng.below(3) == 0 {
         let w = rng.below(nw as u64) as usize;
         let c = 1 + rng.below(nclients as u64) as usize;
         push(&mut due, t0 + Duration::from_millis(first_send[c]), Act::Close { w });
     }
     let mut crashed: Option<String> = None;
+    let mut parked_until: Option<Instant> = None;
+    let mut parks = 0u64;
     let hard_stop = t0 + Duration::from_secs(60);
     loop {
         // 1. observations: clients
@@ -222,7 +286,7 @@ fn one_run(run_no: usize, seed: u64, cfg: &Cfg) -> (Vec<Value>, Value) {
                         wgot[w].push((r, p));
                         ids[w].insert((r, p), m.id.clone());
                         let r = r as usize;
-                        let nparts = if plan[r] == Some("load") { cfg.parts } else { 1 };
+                        let nparts = nparts_of(r);
                         let (b, d1, d2) = script[w][r];
                         let now = Instant::now();
                         let at1 = now + Duration::from_millis(d1);
@@ -282,6 +346,30 @@ fn one_run(run_no: usize, seed: u64, cfg: &Cfg) -> (Vec<Value>, Value) {
                 }
             }
         }
+        // 4b. park / unpark the hub's loop (parky runs). Never around a deadline: a park may only begin while
+        // every pending request is younger than timeout - 300 ms or older than timeout + 400 ms, and lasts
+        // at most 40 ms (Trace_MasterHub.tla, T_silent: no answer written long before a deadline is still unread at it)
+        if parky && crashed.is_none() {
+            let now = Instant::now();
+            if let Some(until) = parked_until {
+                if now >= until {
+                    hub.unpark();
+                    parked_until = None;
+                }
+            } else if rng.below(12) == 0 {
+                let safe = (1..plan.len()).all(|r| match send_time[r] {
+                    Some(t) if !done[r] => {
+                        let age = now.saturating_duration_since(t);
+                        age + Duration::from_millis(300) < timeout || age > timeout + Duration::from_millis(400)
+                    }
+                    _ => true,
+                });
+                if safe && hub.park().is_ok() {
+                    parks += 1;
+                    parked_until = Some(Instant::now() + Duration::from_millis(3 + rng.below(38)));
+                }
+            }
+        }
         // 5. due actions
         due.sort_by_key(|x| (x.0, x.1));
         let now = Instant::now();
@@ -317,10 +405,14 @@ fn one_run(run_no: usize, seed: u64, cfg: &Cfg) -> (Vec<Value>, Value) {
                                 })
                             }
                         }
-                        _ => RequestType::LoadState(write_state_file(hub.dir(), rr, cfg.parts)),
+                        _ => RequestType::LoadState(write_state_file_shape(hub.dir(), rr, &files[r], flavour[r])),
                     };
                     current.insert(c, r);
-                    run.ev(json!({"ev": "send", "r": r, "verb": verb}));
+                    if verb == "load" {
+                        run.ev(json!({"ev": "send", "r": r, "verb": verb, "file": files[r]}));
+                    } else {
+                        run.ev(json!({"ev": "send", "r": r, "verb": verb}));
+                    }
                     send_time[r] = Some(Instant::now());
                     let _ = clients.get_mut(&c).unwrap().write_message(&Request { request_type: Some(t) });
                 }
@@ -350,6 +442,9 @@ fn one_run(run_no: usize, seed: u64, cfg: &Cfg) -> (Vec<Value>, Value) {
         }
         run.ticks();
         std::thread::sleep(Duration::from_millis(2));
+    }
+    if parked_until.is_some() {
+        hub.unpark();
     }
     // end of run: let the hub go idle (two ListWorkers round trips), observe what is left, record the end state
     let mut wstate: Vec<String> = Vec::new();
@@ -408,6 +503,8 @@ fn one_run(run_no: usize, seed: u64, cfg: &Cfg) -> (Vec<Value>, Value) {
     let fate = hub.teardown(Duration::from_secs(4));
     let info = json!({"run": run_no, "nw": nw, "clients": nclients, "events": nev, "hangs": hangs,
                       "plan": plan.iter().skip(1).map(|v| v.unwrap_or("-")).collect::<Vec<_>>(),
+                      "files": (1..plan.len()).map(|r| if plan[r] == Some("load") { json!(files[r]) } else { Value::Null }).collect::<Vec<_>>(),
+                      "parks": parks, "beside": beside,
                       "crashed": crashed, "teardown": format!("{fate:?}")});
     (events, info)
 }
